@@ -160,9 +160,9 @@ def setParent (c : Cfg) (s : Store) (v : Nat) (np : Option Nat) (f : Fault) : St
   -- pre-assign hook (user hook first, then Node's duplicate check); raised outside the `try`
   if f = .pre then (s, .rej) else
   if c.node && dupParent s v np then (s, .rej) else
-  let (s3, idx) := parentBody s v np
-  if f = .post then (parentRollback s3 v np cur idx, .rej)
-  else (s3, .ok)
+  let b := parentBody s v np      -- (store after the body, current_child_idx)
+  if f = .post then (parentRollback b.1 v np cur b.2, .rej)
+  else (b.1, .ok)
 
 /-! ## the children deleter and setter -/
 
